@@ -14,7 +14,9 @@ EXTENDS SCProps, Json
 
 CONSTANTS Engine,      \* "sync" | "async"
           GuardVals,   \* subset of {"T","F","R"} each guard may take per step
-          WithCan      \* TRUE: also explore can(e)
+          WithCan,     \* TRUE: also explore can(e)
+          PropSet,     \* ids of the Prop predicates to evaluate on every edge
+          MaxStates    \* quick tier: stop expanding once this many distinct states were found
 
 VARIABLES status, config, hist, ctx, output, out, lastStep, errv, dirty
 vars == <<mi, status, config, hist, ctx, output, out, lastStep, errv, dirty>>
@@ -62,16 +64,24 @@ PackSend == IF Engine = "pure"
             THEN [Pack EXCEPT !.hist = [p \in DOMAIN hist |-> {}], !.status = "running", !.output = NONE]
             ELSE Pack
 
+\* An event for which no active state declares a matching `on` key takes exactly the path of
+\* any other such event (no candidate from `on`; eventless candidates are considered alike), so
+\* one representative - "__nope__" - is explored for all of them.
+Relevant == {e \in D.events : e = "__nope__" \/ \E s \in config : MatchingKeys(s, e) # <<>>}
+
 Send == /\ Usable /\ status # "uninitialized"
-        /\ \E ev \in D.events : \E gv \in GVs :
+        /\ \E ev \in Relevant : \E gv \in GVs :
               Apply(SendStep(PackSend, ev, gv, Engine), [op |-> "send", ev |-> ev, gv |-> gv])
 
 Can == /\ WithCan /\ Usable /\ status # "uninitialized"
-       /\ \E ev \in D.events : \E gv \in GVs :
+       /\ \E ev \in Relevant : \E gv \in GVs :
              Apply(CanStep(Pack, ev, gv), [op |-> "can", ev |-> ev, gv |-> gv])
 
 Next == Start \/ Send \/ Can
 Spec == Init /\ [][Next]_vars
+
+\* breadth-first prefix of the state graph when the bound bites (evidence: exhaustive = false)
+Bound == TLCGet("distinct") <= MaxStates
 
 View == <<mi, status, config, hist, ctx, output, dirty>>
 
@@ -80,11 +90,12 @@ Proj(c, h, s, x, o, e) == [config |-> c, hist |-> h, status |-> s, ctx |-> x, ou
 PreS  == Proj(config, hist, status, ctx, output, errv)
 PostS == Proj(config', hist', status', ctx', output', errv')
 
-Props == [C01 |-> C01(PreS, lastStep', PostS, out'),
-          C02 |-> C02(PreS, lastStep', PostS, out'),
-          C03 |-> C03(PreS, lastStep', PostS, out'),
-          C10 |-> C10(PreS, lastStep', PostS, out', Engine),
-          C11 |-> C11(PreS, lastStep', PostS, out', Engine)]
+On(p, v) == IF p \in PropSet THEN v ELSE {}
+Props == [C01 |-> On("C01", C01(PreS, lastStep', PostS, out')),
+          C02 |-> On("C02", C02(PreS, lastStep', PostS, out')),
+          C03 |-> On("C03", C03(PreS, lastStep', PostS, out')),
+          C10 |-> On("C10", C10(PreS, lastStep', PostS, out', Engine)),
+          C11 |-> On("C11", C11(PreS, lastStep', PostS, out', Engine))]
 
 Emit == PrintT(ToJson([mi |-> mi, from |-> PreS, step |-> lastStep', to |-> PostS, dirty |-> dirty',
                        out |-> out', prop |-> Props]))
